@@ -44,11 +44,13 @@ var c09Ops = []string{
 type c09Program struct {
 	Fresh   bool       `json:"freshSharedObjects"`
 	Procs   int        `json:"gomaxprocs"`
+	Repeat  int        `json:"repeatEachOp,omitempty"` // every op is executed this many times in a row (0 = once)
 	Scripts [][]string `json:"goroutines"`
 }
 
 func genC09Program(t *rapid.T) *c09Program {
 	p := &c09Program{Fresh: rapid.IntRange(0, 2).Draw(t, "fresh") != 0, Procs: rapid.SampledFrom([]int{2, 4, 16}).Draw(t, "gomaxprocs")}
+	p.Repeat = rapid.SampledFrom([]int{1, 1, 1, 3, 20, 100}).Draw(t, "repeatEachOp")
 	ng := rapid.IntRange(2, 8).Draw(t, "goroutines")
 	// focus: some programs hammer a small subset of ops (first-use races need the same op in several goroutines)
 	ops := c09Ops
@@ -149,154 +151,161 @@ func c09Run(t interface{ Fatalf(string, ...any) }, p *c09Program) (sharedWriters
 					panicMsg.Store(fmt.Sprintf("goroutine %d panicked: %v\n%s", g, r, buf[:n]))
 				}
 			}()
+			rep := max(p.Repeat, 1)
 			for _, op := range p.Scripts[g] {
-				switch op {
-				case "Logger.Info":
-					shared.Info("a", zap.Int("g", g))
-				case "Logger.Debug":
-					shared.Debug("a", zap.Int("g", g))
-				case "Logger.Error":
-					shared.Error("a", zap.Int("g", g), zap.Error(fmt.Errorf("e%d", g)))
-				case "Logger.Log":
-					shared.Log(zapcore.WarnLevel, "a")
-				case "Logger.DPanic":
-					shared.DPanic("a")
-				case "Logger.Panic":
-					shared.Panic("a")
-				case "Logger.Fatal":
-					shared.Fatal("a")
-				case "Logger.Check+Write":
-					if ce := shared.Check(zapcore.InfoLevel, "h"); ce != nil {
-						ce.Write(zap.Int("g", g))
-					}
-				case "Sugar.Infow":
-					sg.Infow("b", "g", g)
-				case "Sugar.Infof":
-					sg.Infof("b %d", g)
-				case "Sugar.Infoln":
-					sg.Infoln("b", g)
-				case "Sugar.Info":
-					sg.Info("b", g)
-				case "Sugar.Logw":
-					sg.Logw(zapcore.ErrorLevel, "b", "g", g)
-				case "Sugar.With":
-					sg.With("w", g).Warnw("c")
-				case "Sugar.WithLazy":
-					sg.WithLazy("wl", g).Warn("c")
-				case "Sugar.Errorw(dangling)":
-					sg.Errorw("c", "dangling")
-				case "Logger.With":
-					shared.With(zap.Int("w", g)).Warn("c")
-				case "Logger.WithLazy":
-					shared.WithLazy(zap.Int("wl", g)).Error("d")
-				case "Logger.Named":
-					shared.Named("n").Debug("e")
-				case "Logger.WithOptions":
-					shared.WithOptions(zap.Fields(zap.Int("o", g)), zap.AddCallerSkip(1), zap.IncreaseLevel(zapcore.InfoLevel)).Info("j")
-				case "Logger.Level":
-					_ = shared.Level()
-					_ = base.Level()
-				case "Logger.Sync":
-					_ = shared.Sync()
-				case "Logger.Sugar/Desugar":
-					shared.Sugar().Desugar().Sugar().Infow("k")
-				case "Logger.Core.Enabled":
-					_ = shared.Core().Enabled(zapcore.InfoLevel)
-					_ = lazyChild.Core().Enabled(zapcore.DebugLevel)
-				case "AtomicLevel.SetLevel":
-					al.SetLevel(zapcore.Level(g%3 - 1))
-				case "AtomicLevel.Level":
-					_ = al.Level()
-					_ = al.String()
-				case "AtomicLevel.Enabled":
-					_ = al.Enabled(zapcore.WarnLevel)
-				case "AtomicLevel.ServeHTTP(GET)":
-					al.ServeHTTP(httptest.NewRecorder(), httptest.NewRequest("GET", "/", nil))
-				case "AtomicLevel.ServeHTTP(PUT)":
-					req := httptest.NewRequest("PUT", "/", strings.NewReader(`{"level":"debug"}`))
-					al.ServeHTTP(httptest.NewRecorder(), req)
-				case "AtomicLevel.MarshalText":
-					_, _ = al.MarshalText()
-				case "ReplaceGlobals":
-					restore := zap.ReplaceGlobals(shared)
-					restore()
-				case "L().Info":
-					zap.L().Info("f")
-				case "S().Infow":
-					zap.S().Infow("g", "k", g)
-				case "Observer.All":
-					_ = logs.All()
-				case "Observer.Len":
-					_ = logs.Len()
-				case "Observer.TakeAll":
-					_ = logs.TakeAll()
-				case "Observer.Filter":
-					_ = logs.FilterMessage("a").FilterLevelExact(zapcore.InfoLevel).Len()
-				case "slog.Info":
-					sl.Info("i", "k", g)
-				case "slog.With+WithGroup":
-					sl.With("a", g).WithGroup("G").Warn("i", "k", g)
-				case "slog.Handler.WithAttrs+Handle":
-					h := slh.WithAttrs([]slog.Attr{slog.Int("a", g)}).WithGroup("H")
-					_ = h.Handle(context.Background(), slog.NewRecord(time.Unix(1, 0), slog.LevelError, "i", 0))
-				case "slog.PendingGroups.WithGroup":
-					h := pending.WithGroup(fmt.Sprintf("g%d", g))
-					r := slog.NewRecord(time.Unix(1, 0), slog.LevelInfo, "i", 0)
-					r.AddAttrs(slog.Int("k", g))
-					_ = h.Handle(context.Background(), r)
-				case "slog.PendingGroups.WithAttrs":
-					_ = pending.WithAttrs([]slog.Attr{slog.Int("a", g)}).Handle(context.Background(), slog.NewRecord(time.Unix(1, 0), slog.LevelWarn, "i", 0))
-				case "BWS.Write":
-					_, _ = bws.Write([]byte("direct\n"))
-				case "BWS.Sync":
-					_ = bws.Sync()
-				case "BWS.Stop":
-					_ = bws.Stop()
-				case "Locked.Write":
-					_, _ = locked.Write([]byte("direct\n"))
-				case "Locked.Sync":
-					_ = locked.Sync()
-				case "LazyChild.Info":
-					lazyChild.Info("lc")
-				case "LazyChild.With":
-					lazyChild.With(zap.Int("x", g)).Sugar().Infow("lc", "y", g)
-				case "yield":
-					runtime.Gosched()
-				case "ReflectCtx.Info(reflect)":
-					reflCtx.Info("r", zap.Reflect("v", map[string]any{"g": g, "s": []int{g, g}}), zap.Any("a", struct{ G int }{g}))
-				case "ReflectCtx.With(reflect)":
-					reflCtx.With(zap.Reflect("w", []int{g})).Warn("r", zap.Reflect("v", g))
-				case "Logger.Info(unencodable)":
-					shared.Info("u", zap.Reflect("bad", make(chan int)), zap.Reflect("nan", map[string]float64{"x": math.NaN()}), zap.Reflect("ok", []int{g}))
-					reflCtx.Info("u", zap.Reflect("bad", func() {}), zap.Reflect("ok", g))
-				case "Logger.Error(errors)":
-					shared.Error("e", zap.Errors("errs", []error{fmt.Errorf("e%d", g), nil, verboseErr{"v"}, groupErr{"g", []error{fmt.Errorf("m")}}}), zap.NamedError("ne", panicErr{"boom"}))
-				case "Logger.Info(nested)":
-					shared.Info("n", zap.Object("o", c04Obj{g, "pad"}), zap.Objects("os", []c04Obj{{g, "a"}, {g, "b"}}), zap.Dict("d", zap.Int("g", g), zap.Namespace("ns"), zap.Duration("dur", time.Duration(g))),
-						zap.Times("ts", []time.Time{time.Unix(int64(g), 0)}), zap.Namespace("open"), zap.Binary("bin", []byte{byte(g)}))
-				case "Logger.Info(stringers)":
-					shared.Info("s", zap.Stringer("ok", okStringer{"s"}), zap.Stringer("panics", panicStringer{"boom"}), zap.Stringers("ss", []fmt.Stringer{okStringer{"a"}, nil, (*ptrStringer)(nil)}))
-				case "DeepStack.Error":
-					// stack capture deeper than the pooled 64-frame storage
-					deepCall(70+10*g, func() { shared.Error("deep", zap.Int("g", g)) })
-				case "Logger.Info(big)":
-					shared.Info(strings.Repeat("x", 3000), zap.String("big", strings.Repeat("y", 2000)))
-				case "StdLog.Print":
-					stdl.Print("std ", g)
-				case "grpc.Info":
-					grpcl.Info("grpc", g)
-					grpcl.Warningf("grpc %d", g)
-				case "grpc.V":
-					_ = grpcl.V(g % 4)
-				case "zapio.Write":
-					w := &zapio.Writer{Log: shared, Level: zapcore.InfoLevel}
-					_, _ = w.Write([]byte("line1\npartial"))
-					_ = w.Close()
-				case "Logger.Check(disabled)":
-					if ce := shared.Check(zapcore.Level(-5), "never"); ce != nil {
-						ce.Write()
+				if op == "BWS.Stop" || op == "ReplaceGlobals" || strings.HasPrefix(op, "AtomicLevel.ServeHTTP") {
+					rep = min(rep, 3)
+				}
+				for r := 0; r < rep; r++ {
+					switch op {
+					case "Logger.Info":
+						shared.Info("a", zap.Int("g", g))
+					case "Logger.Debug":
+						shared.Debug("a", zap.Int("g", g))
+					case "Logger.Error":
+						shared.Error("a", zap.Int("g", g), zap.Error(fmt.Errorf("e%d", g)))
+					case "Logger.Log":
+						shared.Log(zapcore.WarnLevel, "a")
+					case "Logger.DPanic":
+						shared.DPanic("a")
+					case "Logger.Panic":
+						shared.Panic("a")
+					case "Logger.Fatal":
+						shared.Fatal("a")
+					case "Logger.Check+Write":
+						if ce := shared.Check(zapcore.InfoLevel, "h"); ce != nil {
+							ce.Write(zap.Int("g", g))
+						}
+					case "Sugar.Infow":
+						sg.Infow("b", "g", g)
+					case "Sugar.Infof":
+						sg.Infof("b %d", g)
+					case "Sugar.Infoln":
+						sg.Infoln("b", g)
+					case "Sugar.Info":
+						sg.Info("b", g)
+					case "Sugar.Logw":
+						sg.Logw(zapcore.ErrorLevel, "b", "g", g)
+					case "Sugar.With":
+						sg.With("w", g).Warnw("c")
+					case "Sugar.WithLazy":
+						sg.WithLazy("wl", g).Warn("c")
+					case "Sugar.Errorw(dangling)":
+						sg.Errorw("c", "dangling")
+					case "Logger.With":
+						shared.With(zap.Int("w", g)).Warn("c")
+					case "Logger.WithLazy":
+						shared.WithLazy(zap.Int("wl", g)).Error("d")
+					case "Logger.Named":
+						shared.Named("n").Debug("e")
+					case "Logger.WithOptions":
+						shared.WithOptions(zap.Fields(zap.Int("o", g)), zap.AddCallerSkip(1), zap.IncreaseLevel(zapcore.InfoLevel)).Info("j")
+					case "Logger.Level":
+						_ = shared.Level()
+						_ = base.Level()
+					case "Logger.Sync":
+						_ = shared.Sync()
+					case "Logger.Sugar/Desugar":
+						shared.Sugar().Desugar().Sugar().Infow("k")
+					case "Logger.Core.Enabled":
+						_ = shared.Core().Enabled(zapcore.InfoLevel)
+						_ = lazyChild.Core().Enabled(zapcore.DebugLevel)
+					case "AtomicLevel.SetLevel":
+						al.SetLevel(zapcore.Level(g%3 - 1))
+					case "AtomicLevel.Level":
+						_ = al.Level()
+						_ = al.String()
+					case "AtomicLevel.Enabled":
+						_ = al.Enabled(zapcore.WarnLevel)
+					case "AtomicLevel.ServeHTTP(GET)":
+						al.ServeHTTP(httptest.NewRecorder(), httptest.NewRequest("GET", "/", nil))
+					case "AtomicLevel.ServeHTTP(PUT)":
+						req := httptest.NewRequest("PUT", "/", strings.NewReader(`{"level":"debug"}`))
+						al.ServeHTTP(httptest.NewRecorder(), req)
+					case "AtomicLevel.MarshalText":
+						_, _ = al.MarshalText()
+					case "ReplaceGlobals":
+						restore := zap.ReplaceGlobals(shared)
+						restore()
+					case "L().Info":
+						zap.L().Info("f")
+					case "S().Infow":
+						zap.S().Infow("g", "k", g)
+					case "Observer.All":
+						_ = logs.All()
+					case "Observer.Len":
+						_ = logs.Len()
+					case "Observer.TakeAll":
+						_ = logs.TakeAll()
+					case "Observer.Filter":
+						_ = logs.FilterMessage("a").FilterLevelExact(zapcore.InfoLevel).Len()
+					case "slog.Info":
+						sl.Info("i", "k", g)
+					case "slog.With+WithGroup":
+						sl.With("a", g).WithGroup("G").Warn("i", "k", g)
+					case "slog.Handler.WithAttrs+Handle":
+						h := slh.WithAttrs([]slog.Attr{slog.Int("a", g)}).WithGroup("H")
+						_ = h.Handle(context.Background(), slog.NewRecord(time.Unix(1, 0), slog.LevelError, "i", 0))
+					case "slog.PendingGroups.WithGroup":
+						h := pending.WithGroup(fmt.Sprintf("g%d", g))
+						r := slog.NewRecord(time.Unix(1, 0), slog.LevelInfo, "i", 0)
+						r.AddAttrs(slog.Int("k", g))
+						_ = h.Handle(context.Background(), r)
+					case "slog.PendingGroups.WithAttrs":
+						_ = pending.WithAttrs([]slog.Attr{slog.Int("a", g)}).Handle(context.Background(), slog.NewRecord(time.Unix(1, 0), slog.LevelWarn, "i", 0))
+					case "BWS.Write":
+						_, _ = bws.Write([]byte("direct\n"))
+					case "BWS.Sync":
+						_ = bws.Sync()
+					case "BWS.Stop":
+						_ = bws.Stop()
+					case "Locked.Write":
+						_, _ = locked.Write([]byte("direct\n"))
+					case "Locked.Sync":
+						_ = locked.Sync()
+					case "LazyChild.Info":
+						lazyChild.Info("lc")
+					case "LazyChild.With":
+						lazyChild.With(zap.Int("x", g)).Sugar().Infow("lc", "y", g)
+					case "yield":
+						runtime.Gosched()
+					case "ReflectCtx.Info(reflect)":
+						reflCtx.Info("r", zap.Reflect("v", map[string]any{"g": g, "s": []int{g, g}}), zap.Any("a", struct{ G int }{g}))
+					case "ReflectCtx.With(reflect)":
+						reflCtx.With(zap.Reflect("w", []int{g})).Warn("r", zap.Reflect("v", g))
+					case "Logger.Info(unencodable)":
+						shared.Info("u", zap.Reflect("bad", make(chan int)), zap.Reflect("nan", map[string]float64{"x": math.NaN()}), zap.Reflect("ok", []int{g}))
+						reflCtx.Info("u", zap.Reflect("bad", func() {}), zap.Reflect("ok", g))
+					case "Logger.Error(errors)":
+						shared.Error("e", zap.Errors("errs", []error{fmt.Errorf("e%d", g), nil, verboseErr{"v"}, groupErr{"g", []error{fmt.Errorf("m")}}}), zap.NamedError("ne", panicErr{"boom"}))
+					case "Logger.Info(nested)":
+						shared.Info("n", zap.Object("o", c04Obj{g, "pad"}), zap.Objects("os", []c04Obj{{g, "a"}, {g, "b"}}), zap.Dict("d", zap.Int("g", g), zap.Namespace("ns"), zap.Duration("dur", time.Duration(g))),
+							zap.Times("ts", []time.Time{time.Unix(int64(g), 0)}), zap.Namespace("open"), zap.Binary("bin", []byte{byte(g)}))
+					case "Logger.Info(stringers)":
+						shared.Info("s", zap.Stringer("ok", okStringer{"s"}), zap.Stringer("panics", panicStringer{"boom"}), zap.Stringers("ss", []fmt.Stringer{okStringer{"a"}, nil, (*ptrStringer)(nil)}))
+					case "DeepStack.Error":
+						// stack capture deeper than the pooled 64-frame storage
+						deepCall(70+10*g, func() { shared.Error("deep", zap.Int("g", g)) })
+					case "Logger.Info(big)":
+						shared.Info(strings.Repeat("x", 3000), zap.String("big", strings.Repeat("y", 2000)))
+					case "StdLog.Print":
+						stdl.Print("std ", g)
+					case "grpc.Info":
+						grpcl.Info("grpc", g)
+						grpcl.Warningf("grpc %d", g)
+					case "grpc.V":
+						_ = grpcl.V(g % 4)
+					case "zapio.Write":
+						w := &zapio.Writer{Log: shared, Level: zapcore.InfoLevel}
+						_, _ = w.Write([]byte("line1\npartial"))
+						_ = w.Close()
+					case "Logger.Check(disabled)":
+						if ce := shared.Check(zapcore.Level(-5), "never"); ce != nil {
+							ce.Write()
+						}
 					}
 				}
+				rep = max(p.Repeat, 1)
 			}
 		}(g)
 	}
